@@ -34,6 +34,7 @@ Hints == [k : {"none"}] \cup [k : {"foreign"}]
 FreeArgs == [k : {"blk"}, b : Blocks, sub : BOOLEAN]
             \cup [k : {"outside"}, side : {"below"}, d : 1..Below]
             \cup [k : {"outside"}, side : {"above"}, d : 1..Above]
+            \cup [k : {"outside"}, side : {"zero", "far", "foreign"}, d : {0}]   \* all-zero address, far away, other family
 
 VARIABLES out,      \* set of outstanding blocks
           holders,  \* holders[b]: number of un-freed successful Allocate results naming b
